@@ -33,7 +33,7 @@ import tempfile
 import core
 
 LEVEL = "proof"
-EXTRA_TARGETS = ["model/LocksTie.vo", "model/ExchangeTie.vo", "model/LocksCfgTie.vo"]
+EXTRA_TARGETS = ["model/LocksTie.vo", "model/ExchangeTie.vo", "model/LocksCfgTie.vo", "model/LocksFoundTie.vo"]
 CONF = 1000  # schedule items >= CONF: configuration changes, CONF + 8*process + 2*field + value
 TERM = 0
 SHARD = 24
@@ -423,6 +423,111 @@ def run_mp(method, calls=12, hold=0.001, control=False, timeout=150, disable=Fal
             pass
 
 
+# ---- how the active terminal was found at import time (model/LockImport.v, LocksFound.v): the
+# library is imported in REAL processes whose standard streams are terminals / redirected and
+# which have / do not have a controlling terminal; the route is generated data
+HEADER_F = ("From Coq Require Import List Arith Bool.\nImport ListNotations.\n"
+            "From TI Require Import model.LocksTie model.LockImport model.LocksFoundTie.\nOpen Scope nat_scope.\n")
+STREAM_NAMES = ("stdout", "stdin", "stderr")
+FOUND_CORPUS = [
+    {"streams": [1, 1, 1], "ctty": 1, "method": "fork"},   # an interactive program
+    {"streams": [0, 1, 0], "ctty": 1, "method": "spawn"},  # prog > out 2> err
+    {"streams": [0, 0, 1], "ctty": 1, "method": "fork"},   # prog < in > out
+    {"streams": [0, 0, 0], "ctty": 1, "method": "fork"},   # prog < in > out 2> err
+    {"streams": [0, 0, 0], "ctty": 1, "method": "spawn"},
+    {"streams": [0, 0, 0], "ctty": 0, "method": "fork"},   # a daemon / cron job
+]
+
+
+def found_cases(rng, quick):
+    cases = [dict(c) for c in FOUND_CORPUS]
+    every = [{"streams": [a, b, c], "ctty": t, "method": m} for a in (0, 1) for b in (0, 1) for c in (0, 1)
+             for t in (0, 1) for m in ("fork", "spawn")]
+    rest = [c for c in every if c not in cases]
+    if quick:
+        rng.shuffle(rest)
+        rest = rest[:2]
+    cases += rest
+    return [dict(c, window=1.5 if quick else 3.0) for c in cases]
+
+
+def found_route(c):
+    """the specification of the environment (LockImport.find_terminal), for descriptions only"""
+    for k, t in enumerate(c["streams"]):
+        if t:
+            return STREAM_NAMES[k]
+    return "the controlling terminal (all standard streams redirected)" if c["ctty"] else "none"
+
+
+def run_found(case, timeout=90):
+    """-> result dict of impl_c14_found.py, or {"skipped": why}"""
+    master, slave = pty.openpty()
+    devnull = os.open(os.devnull, os.O_RDWR)
+    out = tempfile.NamedTemporaryFile(prefix="c14f_", suffix=".json", delete=False)
+    out.close()
+    fds = [slave if t else devnull for t in case["streams"]]  # stdout, stdin, stderr
+    try:
+        p = subprocess.Popen([core.IMPL_PY, str(core.VERIF / "harness" / "impl" / "impl_c14_found.py"),
+                              json.dumps(dict(case, ctty_fd=slave)), out.name],
+                             stdin=fds[1], stdout=fds[0], stderr=fds[2], env=core.impl_env(), cwd="/",
+                             start_new_session=True, pass_fds=(slave,))
+        try:
+            rc = p.wait(timeout=timeout)
+        except subprocess.TimeoutExpired:
+            try:
+                os.killpg(p.pid, 9)
+            except OSError:
+                p.kill()
+            p.wait()
+            return {"skipped": "timeout"}
+        txt = open(out.name).read()
+        if rc != 0 or not txt:
+            return {"skipped": f"driver rc={rc}"}
+        return json.loads(txt)
+    except Exception as e:
+        return {"skipped": f"{type(e).__name__}: {e}"}
+    finally:
+        for fd in (master, slave, devnull):
+            os.close(fd)
+        try:
+            os.unlink(out.name)
+        except OSError:
+            pass
+
+
+def found_usable(c, r):
+    """the driver ran, in the environment that was asked for, and the scenario (if any) completed"""
+    if "skipped" in r or r.get("error"):
+        return False
+    if r["env"]["streams"] != c["streams"] or r["env"]["ctty"] != c["ctty"]:
+        return False
+    if r["tty"] and not (r.get("child_ready") and r.get("child_entered") and not r.get("killed")):
+        return False
+    return True
+
+
+def found_term(c, r):
+    b = lambda x: "true" if x else "false"  # noqa: E731
+    return ("{| fc_env := {| e_streams := %s; e_ctty := %s |}; fc_fork := %s; fc_tty := %s; fc_start := %s; "
+            "fc_run := %s; fc_obs := %s |}" % (
+                core.coq_list(c["streams"], b), b(c["ctty"]), b(c["method"] == "fork"), b(r["tty"]), b(r["start"]),
+                b(r["run"]), core.coq_list(r.get("trace", []), lambda e: "(%d, [%d])" % (e[0], e[1]))))
+
+
+def describe_found(c, r=None):
+    s = "import with %s terminals%s, %s controlling terminal (terminal to be found through: %s); child started by %s" % (
+        ", ".join(n for n, t in zip(STREAM_NAMES, c["streams"]) if t) or "no standard stream",
+        "" if all(c["streams"]) else " (%s redirected)" % ", ".join(n for n, t in zip(STREAM_NAMES, c["streams"]) if not t),
+        "with a" if c["ctty"] else "without", found_route(c), c["method"])
+    if r is not None and "tty" in r:
+        s += " -> _tty_fd %s, Process.start %s, Process.run %s" % (
+            "assigned" if r["tty"] else "== -1", "wrapped" if r["start"] else "NOT wrapped", "wrapped" if r["run"] else "NOT wrapped")
+        if r.get("trace"):
+            s += "; trace " + " ".join("%s:%s" % ("parent" if t == 1 else "child", "enter" if e == 3 else "exit")
+                                       for t, e in r["trace"])
+    return s
+
+
 def mp_plan(ctx):
     """(start method, control run, term_image.disable_queries() before the first Process.start())"""
     plan = [("fork", False, False), ("spawn", False, False), ("spawn", True, False), ("spawn", False, True)]
@@ -464,7 +569,10 @@ def run(ctx):
         ex = ThreadPoolExecutor(max_workers=4)
         mp_future = [ex.submit(one, mc) for mc in mp_plan(ctx)]
     xcases = []
-    if ctx.replay and "xchg" in ctx.replay["replay"]["case"]:
+    fcases = []
+    if ctx.replay and "streams" in ctx.replay["replay"]["case"]:
+        fcases, cases = [ctx.replay["replay"]["case"]], []
+    elif ctx.replay and "xchg" in ctx.replay["replay"]["case"]:
         xcases, cases = [ctx.replay["replay"]["case"]], []
     elif ctx.replay:
         cases = [ctx.replay["replay"]["case"]]
@@ -482,9 +590,66 @@ def run(ctx):
                 exhaustive_info.append({"threads": describe(dict(base, sched=[])).split(" ; ")[0], "depth": depth,
                                         "schedules": len(more), "prefix_runs": runs})
                 cases += more
+    found_future = None
+    if not ctx.replay:
+        fcases = found_cases(rng, ctx.quick)
+    if fcases:
+        # real processes in prepared environments, running while the schedules are replayed
+        from concurrent.futures import ThreadPoolExecutor as _TPE
+
+        def one_found(c):
+            r = run_found(c)
+            if not found_usable(c, r):  # load / timeout: once more
+                r = run_found(c)
+            return r
+
+        fex = _TPE(max_workers=4 if ctx.quick else 6)
+        found_future = [fex.submit(one_found, c) for c in fcases]
     codes, errs, impl, racy = evaluate(cases, want_racy=not ctx.replay) if cases else ([], [], [], [0, 0])
     errors += errs
     mismatches, failures = [], []
+    # ---- how the terminal was found: table row + parent/child scenario, judged in Coq
+    fhist = {"cases": len(fcases), "terminal_found_through": {}, "start_method": {}, "skipped": 0, "hooks_installed": 0,
+             "scenario_runs": 0, "would_race_if_hooks_only_for_std_stream": 0}
+    fdistinct = set()
+    if found_future is not None:
+        fres = [f.result() for f in found_future]
+        usable = [i for i, (c, r) in enumerate(zip(fcases, fres)) if found_usable(c, r)]
+        fhist["skipped"] = len(fcases) - len(usable)
+        fhist["skipped_why"] = sorted({str(fres[i].get("skipped") or fres[i].get("error") or "environment / scenario incomplete")
+                                       for i in range(len(fcases)) if i not in usable})[:4]
+        if fcases and not usable:
+            errors.append("terminal-found scenarios: no environment could be realised: " + "; ".join(fhist["skipped_why"]))
+        for i in usable:
+            c, r = fcases[i], fres[i]
+            fhist["terminal_found_through"][found_route(c)] = fhist["terminal_found_through"].get(found_route(c), 0) + 1
+            fhist["hooks_installed"] += bool(r["start"] and r["run"])
+            if r.get("trace"):
+                fhist["scenario_runs"] += 1
+                fhist["start_method"][c["method"]] = fhist["start_method"].get(c["method"], 0) + 1
+                fdistinct.add(core.sig(["found", c["streams"], c["ctty"], c["method"]]))
+        if usable:
+            out, errs = core.coq_shards("c14f", HEADER_F, [found_term(fcases[i], fres[i]) for i in usable], "fcase",
+                                        "badF_variants cases", shard=40)
+            errors += errs
+            # fork before spawn, fewest terminals first: the simplest failing environment is reported
+            for idx, code in sorted(out, key=lambda z: (fcases[usable[z[0]]]["method"] != "fork",
+                                                        sum(fcases[usable[z[0]]]["streams"]), z[0])):
+                c, r = fcases[usable[idx]], fres[usable[idx]]
+                fhist["would_race_if_hooks_only_for_std_stream"] += bool(code & 4)
+                code &= 3
+                if code >= 2:
+                    if sum(1 for f in failures if f["replay"].get("case", {}).get("streams") is not None) < 2:
+                        failures.append({
+                            "signature": core.sig(["found", c["streams"], c["ctty"], c["method"]]),
+                            "what": "a parent process and the child it started with multiprocessing.Process were inside "
+                                    "@lock_tty functions at the same time: " + describe_found(c, r),
+                            "replay": {"case": c, "observed": r, "code": code},
+                        })
+                elif code == 1:
+                    mismatches.append({"case": c, "code": 1, "observed": r,
+                                       "what": "terminal found / hooks installed / scenario trace differ from the model: "
+                                               + describe_found(c, r)})
     # ---- exchanges: every byte read belongs to the reader's own reply (judged in Coq)
     xhist = {"cases": len(xcases), "per_function": {}, "reader_had_to_wait": 0, "departs_from_discipline": 0,
              "reply_delivered_to_another_caller": 0}
@@ -517,7 +682,7 @@ def run(ctx):
             "would_race_if_lock_shared_only_while_queries_enabled": racy[1],
             "start_method": {}, "conf_changes": {}, "cases_with_conf_change": 0,
             "first_start_with_queries_disabled": 0,
-            "exhaustive": exhaustive_info, "exchange": xhist}
+            "exhaustive": exhaustive_info, "exchange": xhist, "terminal_found": fhist}
     distinct = set()
     names = {1: "acquire", 2: "release", 3: "enter", 4: "exit", 5: "write", 6: "reply", 7: "swap", 8: "start"}
     for c, r in zip(cases, impl):
@@ -590,6 +755,9 @@ def run(ctx):
     except Exception as e:
         errors.append(f"with-shape scan: {type(e).__name__}: {e}")
     assumptions = [
+        "how the terminal was found: a standard stream is a terminal iff os.ttyname() + os.open() succeed on it, /dev/tty "
+        "can be opened iff the process has a controlling terminal; os.open either returns a descriptor or raises OSError; "
+        "Unix (OS_IS_UNIX)",
         "atomicity grain: one read of the module global or one lock operation per step; the scheduler interleaves "
         "threads of all processes arbitrarily",
         "configuration: a setting is a boolean field of the process's configuration that any thread of the process may "
@@ -624,7 +792,7 @@ def run(ctx):
                      "lock_tty/_process_start_wrapper/_process_run_wrapper under the deterministic scheduler, one module "
                      "instance per simulated process",
         "evaluations": len(cases) + len(xcases),
-        "distinct_nontrivial": len(distinct) + xhist["reader_had_to_wait"],
+        "distinct_nontrivial": len(distinct) + xhist["reader_had_to_wait"] + len(fdistinct),
         "rule": "corpus (incl. the hand-over race and the schedule of C14_share_only_when_queries_enabled_refuted: queries "
                 "disabled, child started, parent and child call at once) + (thorough tier) ALL schedules of depth 11 / 9 / 9 / 12 "
                 "in which every pick moves, for four small thread systems (see histogram.exhaustive; the fourth offers "
@@ -647,14 +815,28 @@ def run(ctx):
                 "get_terminal_name_version, released at every lock operation of A (between request write and reply read "
                 "in particular); the observed terminal I/O "
                 "(who wrote a request, who read how many bytes, who flushed) is judged in Coq: every byte read belongs "
-                "to the reader's own reply, nothing is left (non-trivial: the reader had to wait).",
-        "samples": [describe(c) for c in cases[:1] + cases[len(CORPUS):len(CORPUS) + 3]] + [describe_x(c) for c in xcases[18:19]],
+                "to the reader's own reply, nothing is left (non-trivial: the reader had to wait).  "
+                "HOW THE TERMINAL WAS FOUND: the library is imported in REAL processes (session leaders) whose standard "
+                "streams are a pty / /dev/null in generated combinations and that have / do not have that pty as "
+                "controlling terminal (corpus: all three terminals; only stdin; only stderr; all redirected with a "
+                "controlling terminal, fork and spawn; all redirected without one; + 2 random of the 32 combinations "
+                "streams x controlling terminal x start method in the quick tier, ALL 32 in the thorough tier); observed: "
+                "_tty_fd assigned, Process.start / Process.run replaced, and (terminal found) the enter / exit log of the "
+                "parent / child scenario with real processes (child started, parent inside a @lock_tty function while the "
+                "child calls one, window 1.5 s / 3 s); judged in Coq (LocksFoundTie.checkF) against "
+                "LockImport.find_terminal / inst_code, the model's trace of the scenario and the trace judge "
+                "(non-trivial: the scenario ran; distinct by environment and start method).",
+        "samples": [describe(c) for c in cases[:1] + cases[len(CORPUS):len(CORPUS) + 3]] + [describe_x(c) for c in xcases[18:19]]
+                   + [describe_found(c) for c in fcases[3:4]],
         "histogram": hist,
         "mismatches": mismatches,
         "failures": failures,
         "errors": errors,
         "assumptions": assumptions,
         "trusted": [
+            "terminal-found scenarios: impl_c14_found.py (pty + setsid + TIOCSCTTY to prepare the environment; event log in "
+            "shared memory under the harness's own lock; a missed overlap is possible — finite window —, a false one is not); "
+            "harness/tx/tx_locks.py's interpretation of the module initialisation (C14_source_hooks_installed_iff_terminal_found)",
             "deterministic scheduler + traced lock objects in impl_c14.py (replace utils._tty_lock, utils._rlock_type, "
             "utils.mp_RLock and the wrapped originals of Process.start/run; lock_tty and both wrappers are the real code)",
             "simulated processes: one instance of term_image/utils.py per process, executed from the library's source "
